@@ -17,66 +17,107 @@ OBLIGATION = json.loads(r'''{
   "class:UniverseLaws": "Cls!val!9",
   "class:BaseObject": "Cls!val!3",
   "class:Universe": "Cls!val!8",
+  "attrlines!8": "Ref!val!15",
   "class:TwoEndedLink": "Cls!val!5",
   "class:Vertex": "Cls!val!1",
   "class:UnDirectedEdge": "Cls!val!7",
   "vertex": "Ref!val!0",
-  "True": "Ref!val!9",
+  "True": "Ref!val!16",
   "None": "Ref!val!1",
   "Vertex._QA_NB_INVALID": "Ref!val!2",
-  "list!1": "Ref!val!7",
+  "list!1": "Ref!val!9",
   "False": "Ref!val!6",
-  "k_selems!12": "Ref!val!8",
   "options": "Ref!val!3",
   "class:Link": "Cls!val!4",
+  "k_selems!14": "Ref!val!15",
   "class:NoneType": "Cls!val!10",
   "class:<non-edgegraph>": "Cls!val!2",
-  "join_o": "[else -> \"!0!\"]",
+  "join_o": "[(Concat(Unit(41), Concat(Unit(124), Unit(40))), Ref!val!7) ->\n \"title_format\",\n else -> \"title_format\"]",
   "sub": "[(Cls!val!0, Cls!val!1) -> True,\n (Cls!val!3, Cls!val!3) -> True,\n (Cls!val!1, Cls!val!3) -> True,\n (Cls!val!1, Cls!val!1) -> True,\n (Cls!val!4, Cls!val!3) -> True,\n (Cls!val!4, Cls!val!4) -> True,\n (Cls!val!5, Cls!val!3) -> True,\n (Cls!val!5, Cls!val!4) -> True,\n (Cls!val!5, Cls!val!5) -> True,\n (C",
   "opt_has@pre": "[else -> True]",
   "attr_lines@0": "[else -> Empty(Seq(String))]",
+  "attr_names@0": "[else -> Unit(\"!0!\")]",
   "selems@pre~1": "[else -> Empty(Seq(String))]",
-  "selems@pre": "[else -> Unit(\"!1!\")]",
-  "mro_len": "[Cls!val!33 -> 1324,\n Cls!val!35 -> 0,\n Cls!val!37 -> 28881,\n Cls!val!39 -> 2240,\n else -> 1]",
-  "opt_get@pre": "[(Ref!val!3, Cls!val!12) -> Ref!val!10,\n (Ref!val!3, Cls!val!14) -> Ref!val!11,\n (Ref!val!3, Cls!val!15) -> Ref!val!12,\n (Ref!val!3, Cls!val!16) -> Ref!val!15,\n (Ref!val!3, Cls!val!18) -> Ref!val!16,\n (Ref!val!3, Cls!val!20) -> Ref!val!17,\n (Ref!val!3, Cls!val!22) -> Ref!val!18,\n (Ref!val!3, Cls!val",
-  "mro_at": "[(Cls!val!11, 20537) -> Cls!val!12,\n (Cls!val!13, 8945) -> Cls!val!14,\n (Cls!val!2, 16202) -> Cls!val!15,\n (Cls!val!10, 0) -> Cls!val!10,\n (Cls!val!11, 0) -> Cls!val!11,\n (Cls!val!13, 0) -> Cls!val!13,\n (Cls!val!2, 0) -> Cls!val!2,\n (Cls!val!10, 6) -> Cls!val!16,\n (Cls!val!17, 26285) -> Cls!val!18,\n",
-  "cls": "[Ref!val!0 -> Cls!val!0,\n Ref!val!1 -> Cls!val!10,\n Ref!val!4 -> Cls!val!11,\n Ref!val!8 -> Cls!val!13,\n Ref!val!15 -> Cls!val!17,\n Ref!val!10 -> Cls!val!19,\n Ref!val!11 -> Cls!val!21,\n Ref!val!12 -> Cls!val!23,\n Ref!val!13 -> Cls!val!25,\n Ref!val!14 -> Cls!val!27,\n Ref!val!16 -> Cls!val!29,\n Ref!val",
-  "rx_compile": "[else -> Ref!val!14]",
+  "mro_len": "[Cls!val!53 -> 29534,\n Cls!val!55 -> 0,\n Cls!val!57 -> 28224,\n Cls!val!61 -> 20585,\n Cls!val!65 -> 31111,\n Cls!val!69 -> 17067,\n Cls!val!73 -> 0,\n else -> 1]",
+  "opt_get@pre": "[(Ref!val!3, Cls!val!12) -> Ref!val!17,\n (Ref!val!3, Cls!val!14) -> Ref!val!18,\n (Ref!val!3, Cls!val!16) -> Ref!val!19,\n (Ref!val!3, Cls!val!18) -> Ref!val!20,\n (Ref!val!3, Cls!val!20) -> Ref!val!21,\n (Ref!val!3, Cls!val!22) -> Ref!val!22,\n (Ref!val!3, Cls!val!24) -> Ref!val!23,\n (Ref!val!3, Cls!val",
+  "hexid": "[else -> Ref!val!10]",
+  "py_eq": "[else -> True]",
+  "cls": "[Ref!val!0 -> Cls!val!0,\n Ref!val!1 -> Cls!val!10,\n Ref!val!4 -> Cls!val!11,\n Ref!val!7 -> Cls!val!13,\n Ref!val!8 -> Cls!val!15,\n Ref!val!14 -> Cls!val!17,\n Ref!val!13 -> Cls!val!19,\n Ref!val!11 -> Cls!val!21,\n Ref!val!10 -> Cls!val!23,\n Ref!val!12 -> Cls!val!25,\n Ref!val!15 -> Cls!val!27,\n Ref!val!",
+  "rx_compile": "[else -> Ref!val!8]",
   "od_has@pre": "[(Ref!val!4,\n  Concat(Unit(117),\n         Concat(Unit(115),\n                Concat(Unit(101),\n                       Concat(Unit(114),\n                              Concat(Unit(95),\n                                     Concat(Unit(114),\n                                        Concat(Unit(101),\n     ",
-  "od_val@pre": "[else -> Ref!val!13]",
+  "od_val@pre": "[(Ref!val!4,\n  Concat(Unit(116),\n         Concat(Unit(105),\n                Concat(Unit(116),\n                       Concat(Unit(108),\n                              Concat(Unit(101),\n                                     Concat(Unit(95),\n                                        Concat(Unit(102),\n     ",
+  "attr_map@0": "[else -> Ref!val!13]",
+  "fmt_apply": "[else -> Ref!val!14]",
+  "mro_at": "[(Cls!val!11, 2997) -> Cls!val!12,\n (Cls!val!13, 14680) -> Cls!val!14,\n (Cls!val!15, 20976) -> Cls!val!16,\n (Cls!val!17, 21655) -> Cls!val!18,\n (Cls!val!19, 25906) -> Cls!val!20,\n (Cls!val!21, 18457) -> Cls!val!22,\n (Cls!val!23, 1323) -> Cls!val!24,\n (Cls!val!25, 28881) -> Cls!val!26,\n (Cls!val!27, ",
+  "selems@pre": "[else -> Unit(\"!1!\")]",
+  "str_box": "[else -> Ref!val!12]",
   "is_pattern": "[else -> True]",
-  "residx@0": "[(Ref!val!3, Cls!val!11, 0) -> 20537,\n (Ref!val!3, Cls!val!13, 0) -> 8945,\n (Ref!val!3, Cls!val!2, 0) -> 16202,\n (Ref!val!3, Cls!val!10, 0) -> 6,\n (Ref!val!3, Cls!val!17, 0) -> 26285,\n (Ref!val!3, Cls!val!19, 0) -> 14680,\n (Ref!val!3, Cls!val!21, 0) -> 20976,\n (Ref!val!3, Cls!val!23, 0) -> 2997,\n (R"
+  "residx@0": "[(Ref!val!3, Cls!val!11, 0) -> 2997,\n (Ref!val!3, Cls!val!13, 0) -> 14680,\n (Ref!val!3, Cls!val!15, 0) -> 20976,\n (Ref!val!3, Cls!val!17, 0) -> 21655,\n (Ref!val!3, Cls!val!19, 0) -> 25906,\n (Ref!val!3, Cls!val!21, 0) -> 18457,\n (Ref!val!3, Cls!val!23, 0) -> 1323,\n (Ref!val!3, Cls!val!25, 0) -> 28881",
+  "py_str": "[Ref!val!12 -> \"$id\", else -> \"$id\"]"
  },
  "other_refuted_obligations_of_this_function": [],
  "bounded_search_for_a_failing_input": {
-  "histories": 3312184,
-  "calls_checked": 207197,
-  "distinct": 2592788,
+  "histories": 3158006,
+  "calls_checked": 197703,
+  "distinct": 2476142,
   "workers": 14,
   "budget_s_each": 40.0,
   "errors": [],
+  "operations_run": {
+   "new_edge": 1525865,
+   "u_add_vertex": 383173,
+   "new_link_multi": 380552,
+   "set_v1": 380508,
+   "set_v2": 381056,
+   "add_to_link": 382402,
+   "remove_from_link": 380829,
+   "add_vertex": 379656,
+   "unlink_from": 381167,
+   "new_vertex_links": 380873,
+   "link_from_to": 1523233,
+   "unlink": 381629,
+   "u_remove_vertex": 380266,
+   "v_add_to_universe": 380809,
+   "v_remove_from_universe": 380325,
+   "new_vertex_unis": 382050,
+   "new_universe": 381424,
+   "plantuml_src": 2285480
+  },
   "sample": [
    [
-    "link_from_to",
-    2,
+    "v_remove_from_universe",
     0,
-    2,
     0
    ],
    [
-    "set_v2",
+    "new_edge",
+    0,
+    0,
+    0
+   ],
+   [
+    "link_from_to",
+    0,
+    0,
     2,
     0
    ],
    [
     "plantuml_src",
-    -1,
+    0,
+    2
+   ],
+   [
+    "new_edge",
+    0,
+    0,
     0
    ],
    [
-    "unlink_from",
+    "new_edge",
+    2,
     0,
-    -1
+    0
    ]
   ],
   "focus": [
